@@ -375,7 +375,6 @@ theorem runLoop_mkW (d : Nat) (base : TW) (m) : ∀ (f : Nat) (a : DA),
 def DA.step (d : Nat) (a : DA) : TW.Ev → DA
   | .emit i n =>
     if i ≠ 0 ∨ a.term then a
-    else if n.isTerm && !a.alive then { a with term := true }
     else match n with
       -- `delay` forwards an error at once and closes the slot: the pending items are cut off
       | .error e => { a with alive := false, log := a.log ++ (if a.alive then [.error e] else []), term := true }
@@ -448,26 +447,17 @@ theorem step_sim (d : Nat) (a : DA) (w : TW) (ev : TW.Ev) (hev : FifoEv ev) (h :
           apply RD_of <;> simp [DA.step, hT, Notif.isTerm, hsrc, hsub, hal, hterm']
         | true =>
           rw [TW.step_emit_term (mkW d base a m) _ _ hn hsrc hterm hsub hal]
-          cases hA : a.alive with
-          | false =>
-            have : fin (mkW d base a m).stages = true := by simp [mkW, fin, hA]
-            simp only [this, if_true]
-            rw [show ({ mkW d base a m with terminated := 0 :: (mkW d base a m).terminated } : TW)
-                  = mkW d { base with terminated := 0 :: base.terminated } a m from rfl, hlen, hdn]
-            apply RD_of <;> simp [DA.step, hT, hn, hA, hsrc, hsub]
-          | true =>
-            have : fin (mkW d base a m).stages = false := by simp [mkW, fin, hA]
-            simp only [this, Bool.false_eq_true, if_false]
-            rw [show ({ mkW d base a m with terminated := 0 :: (mkW d base a m).terminated, srcAlive := false } : TW)
-                  = mkW d { base with terminated := 0 :: base.terminated, srcAlive := false } a m from rfl]
-            cases n with
-            | next v => simp [Notif.isTerm] at hn
-            | error e =>
-              rw [push_emit_error, hlen, hdn]
-              apply RD_of <;> simp [DA.step, hT, hA, hsrc, hsub, Notif.isTerm]
-            | complete =>
-              rw [push_emit d _ a m _ (by intro e; simp), hlen, hdn]
-              apply RD_of <;> simp [DA.step, hT, hA, hsrc, hsub, Notif.isTerm]
+          simp only []
+          rw [show ({ mkW d base a m with terminated := 0 :: (mkW d base a m).terminated, srcAlive := false } : TW)
+                = mkW d { base with terminated := 0 :: base.terminated, srcAlive := false } a m from rfl]
+          cases n with
+          | next v => simp [Notif.isTerm] at hn
+          | error e =>
+            rw [push_emit_error, hlen, hdn]
+            apply RD_of <;> simp [DA.step, hT, hsrc, hsub, Notif.isTerm]
+          | complete =>
+            rw [push_emit d _ a m _ (by intro e; simp), hlen, hdn]
+            apply RD_of <;> simp [DA.step, hT, hsrc, hsub, Notif.isTerm]
     · have ha : a.step d (.emit i n) = a := by simp [DA.step, hi]
       rw [ha]
       cases hc : base.terminated.contains i with
